@@ -286,11 +286,41 @@ pub fn check(thorough: bool, _seed: u64) -> Check {
         classes: vec![("quartic_special_form", true), ("generic_form", true)],
         bounds: json!({"degrees": "1..8", "coefficients": "p_i = q_i + (i+1) q_(i+1) for q over three small-integer patterns with q_j = 0 for every j below the degree in turn", "(a,b)": "(0.5,3), (2,0.25)", "knot": "(2,5)"}),
     };
+    // knots on and next to a zero of the unshifted antiderivative t*q(ln t) other than t = 1: q is built with the root L0, p follows
+    // from the recurrence (exact small dyadic numbers), knot.x = exp(L0)(1+d): G0(knot.x) is small by cancellation
+    let zeros = Phase {
+        name: "knots-next-to-zeros-of-the-antiderivative",
+        units: 8,
+        split: 1,
+        body: Box::new(move |unit, cx| {
+            let d = unit + 1; // degree of p (and of q)
+            let l0 = [-1.0, 0.5, 2.0, -0.25][cx.choose(4)];
+            // q(L) = (L - l0) * s(L), s of degree d-1 with small integer coefficients
+            let sv: Vec<f64> = (0..d).map(|i| [1.0, -2.0, 1.0, 3.0, -1.0, 2.0, 1.0, -1.0][i]).collect();
+            let mut qv = vec![0.0; d + 1];
+            for (i, c) in sv.iter().enumerate() {
+                qv[i + 1] += c;
+                qv[i] -= l0 * c;
+            }
+            let p: Vec<f64> = (0..=d).map(|i| qv[i] + if i < d { (i as f64 + 1.0) * qv[i + 1] } else { 0.0 }).collect();
+            let delta = [0.0, 3e-7, -3e-7, 1e-9, -1e-12, 2.5e-16][cx.choose(6)];
+            let kx = l0.exp() * (1.0 + delta);
+            let knot = Knot { x: kx, y: [0.5, 0.0, -3.0][cx.choose(3)] };
+            cx.nontrivial();
+            cx.class(if d == 4 { 0 } else { 1 });
+            if cx.sampling() {
+                cx.sample(json!({"degree": d, "coefficients": p, "root_of_q": l0, "knot": [knot.x, knot.y]}));
+            }
+            by_degree!(d, leaf(&p, knot, 0.5, 3.0, cx))
+        }),
+        classes: vec![("quartic_special_form", true), ("generic_form", true)],
+        bounds: json!({"degrees": "1..8", "coefficients": "p from q(L) = (L - L0) s(L), L0 in {-1, 0.5, 2, -0.25}, s with small integer coefficients", "knot.x": "exp(L0)(1+d), d in {0, +-3e-7, 1e-9, -1e-12, 2.5e-16}", "knot.y": "{0.5, 0, -3}", "(a,b)": "(0.5, 3)"}),
+    };
     Check {
         id: "C09",
         rule: "choice tree: (degree, knot) resp. (degree, (a,b)) unit x coefficient vector; each leaf runs the real Log<PolyN>::integral / indefinite and evaluates the result at knot.x, a and b through its real evaluate; non-trivial = a, b (and knot.x) different from 1".into(),
         assumptions: vec!["f64::ln within 1 ulp (its rounding is propagated into the tolerance)".into()],
-        phases: vec![knots, pairs_ph, sweep, coincide, cancel],
+        phases: vec![knots, pairs_ph, sweep, coincide, cancel, zeros],
         extra: Default::default(),
         controls: vec![("oracle G reproduces the integral of ln t: t ln t - t", Box::new(|| {
             let (q, m) = exact_q(&[0.0, 1.0]);
